@@ -84,6 +84,12 @@ def main(argv=None):
         for t, r in audit_res.items():
             if not r["ok"]:
                 broken[t] = r["why"]
+        if a.tier == "thorough" and not a.replay:
+            ok_lc, out_lc = core.leanchecker("Props.%s" % prop)
+            ctx.note("leanchecker Props.%s: %s" % (prop, "accepted" if ok_lc else ("not available" if ok_lc is None else "REJECTED")))
+            if ok_lc is False:
+                for t in theorems:
+                    broken.setdefault(t, "leanchecker rejected the compiled module: %s" % out_lc[-300:])
 
     if a.replay:
         case = json.load(open(a.replay))
